@@ -1,2 +1,2 @@
 pub mod c01; pub mod c02; pub mod c03; pub mod c04; pub mod c05; pub mod c06; pub mod c07; pub mod c08; pub mod c09; pub mod c10; pub mod c10_gen; pub mod c10_build; pub mod c10_min;
-pub mod c11; pub mod c12; pub mod c13; pub mod c14; pub mod c15; pub mod c15_schema; pub mod c15_gen; pub mod c15_cmp; pub mod c16; pub mod c17; pub mod c18; pub mod c19; pub mod c20;
+pub mod c11; pub mod c12; pub mod c13; pub mod c14; pub mod c15; pub mod c15_schema; pub mod c15_gen; pub mod c15_cmp; pub mod c16; pub mod c17; pub mod c18; pub mod c19; pub mod c20; pub mod c20_gen;
